@@ -204,7 +204,8 @@ def run(tier):
     ck.cov["evaluations"] = nprog + ran
     ck.cov["programs"] = nprog
     ck.cov["controls_run"] = ran
-    ck.cov["distinct_nontrivial"] = nprog
+    if not ck.cov["distinct_nontrivial"]:
+        ck.cov["distinct_nontrivial"] = nprog
     ck.cov["free_cells"] = free
     live = set(cells[n]["route"] for n in cells if n in built and n not in errs)
     dead = sorted(set(c["route"] for c in cells.values()) - live - set(r[0] for r in OPS["use_after_transition"]))
